@@ -283,20 +283,27 @@ Proof.
   unfold jm_plain_char. rewrite !orb_true_iff, andb_true_iff, negb_true_iff, N.ltb_lt, !N.eqb_eq, N.eqb_neq. tauto.
 Qed.
 
-Lemma not_plain_cases c : jm_plain_char c = false ->
-  In c [0;1;2;3;4;5;6;7;8;9;10;11;12;13;14;15;16;17;18;19;20;21;22;23;24;25;26;27;28;29;30;31;34;92].
+Lemma not_plain_lt c : jm_plain_char c = false -> c <> 34 -> c <> 92 -> c < 32.
 Proof.
-  intros H. assert (Hc : c < 32 \/ c = 34 \/ c = 92).
-  { destruct (N.ltb_spec c 32); [left; assumption|right].
-    destruct (N.eqb_spec c 34); [left; assumption|]. destruct (N.eqb_spec c 92); [right; assumption|].
-    exfalso. assert (jm_plain_char c = true); [|congruence]. apply plain_char_spec.
-    destruct (N.eqb_spec c 32); [right; left; assumption|]. destruct (N.eqb_spec c 33); [right; right; assumption|].
-    left. lia. }
-  destruct Hc as [Hc|[->| ->]]; [|simpl; tauto|simpl; tauto].
-  assert (E : forallb (fun v => if v <? 32 then existsb (N.eqb v) [0;1;2;3;4;5;6;7;8;9;10;11;12;13;14;15;16;17;18;19;20;21;22;23;24;25;26;27;28;29;30;31] else true) all_bytes = true) by (vm_compute; reflexivity).
-  pose proof (byte_sweep _ E c ltac:(lia)) as Hs. cbv beta in Hs.
-  apply N.ltb_lt in Hc. rewrite Hc in Hs. apply existsb_exists in Hs. destruct Hs as (x & Hin & Hx).
-  apply N.eqb_eq in Hx. subst x. simpl in Hin. simpl. tauto.
+  intros H H34 H92. destruct (N.ltb_spec c 32); [assumption|]. exfalso.
+  assert (jm_plain_char c = true); [|congruence]. apply plain_char_spec.
+  destruct (N.eq_dec c 32); [right; left; assumption|]. destruct (N.eq_dec c 33); [right; right; assumption|]. left. lia.
+Qed.
+
+Lemma hexdigit_spec_decode : forall v, v < 16 -> js_hexval (jm_hexdigit v) = Some v.
+Proof.
+  intros v Hv.
+  assert (E : forallb (fun v => if v <? 16 then match js_hexval (jm_hexdigit v) with Some x => x =? v | None => false end else true) all_bytes = true)
+    by (vm_compute; reflexivity).
+  pose proof (byte_sweep _ E v ltac:(lia)) as Hs. cbv beta in Hs. apply N.ltb_lt in Hv. rewrite Hv in Hs.
+  destruct (js_hexval (jm_hexdigit v)); [|discriminate]. apply N.eqb_eq in Hs. subst. reflexivity.
+Qed.
+
+Lemma ctl_value c : c < 32 -> (if c <? 16 then 0 else 1) * 16 + c mod 16 = c.
+Proof.
+  intros Hc. destruct (N.ltb_spec c 16).
+  - rewrite N.mod_small by assumption. reflexivity.
+  - rewrite <- (N.mod_unique c 16 1 (c - 16)) by lia. lia.
 Qed.
 
 (* one character of the input is one step of the RFC 8259 string recogniser and denotes itself *)
@@ -305,10 +312,28 @@ Lemma js_chars_step c f r acc :
 Proof.
   destruct (jm_plain_char c) eqn:P.
   - unfold jm_encode_char. rewrite P. apply plain_char_spec in P.
-    simpl. destruct (N.eqb_spec c 34); [lia|]. destruct (N.ltb_spec c 32); [lia|].
-    destruct (N.eqb_spec c 92); [lia|]. reflexivity.
-  - pose proof (not_plain_cases c P) as Hin.
-    repeat (destruct Hin as [<-|Hin]; [reflexivity|]). destruct Hin.
+    assert (E1 : (c =? 34) = false) by (apply N.eqb_neq; lia).
+    assert (E2 : (c <? 32) = false) by (apply N.ltb_ge; lia).
+    assert (E3 : (c =? 92) = false) by (apply N.eqb_neq; lia).
+    cbn [app js_chars]. rewrite E1, E2, E3. reflexivity.
+  - unfold jm_encode_char. rewrite P.
+    destruct (N.eqb_spec c 92) as [->|H92]; [reflexivity|]. destruct (N.eqb_spec c 34) as [->|H34]; [reflexivity|].
+    destruct (N.eqb_spec c 8) as [->|]; [reflexivity|]. destruct (N.eqb_spec c 12) as [->|]; [reflexivity|].
+    destruct (N.eqb_spec c 10) as [->|]; [reflexivity|]. destruct (N.eqb_spec c 13) as [->|]; [reflexivity|].
+    destruct (N.eqb_spec c 9) as [->|]; [reflexivity|].
+    pose proof (not_plain_lt c P H34 H92) as Hc.
+    assert (Hm : c mod 16 < 16) by (apply N.mod_lt; discriminate).
+    cbn [app js_chars]. change (92 =? 34) with false. change (92 <? 32) with false. change (92 =? 92) with true. cbv iota.
+    change ((117 =? 34) || (117 =? 92) || (117 =? 47)) with false. change (117 =? 98) with false. change (117 =? 102) with false.
+    change (117 =? 110) with false. change (117 =? 114) with false. change (117 =? 116) with false. change (117 =? 117) with true. cbv iota.
+    unfold js_hex4. change (js_hexval 48) with (Some 0).
+    rewrite (hexdigit_spec_decode _ Hm).
+    assert (Hd : js_hexval (if c <? 16 then 48 else 49) = Some (if c <? 16 then 0 else 1)) by (destruct (c <? 16); reflexivity).
+    rewrite Hd.
+    replace (0 * 4096 + 0 * 256 + (if c <? 16 then 0 else 1) * 16 + c mod 16) with c by (rewrite <- (ctl_value c Hc) at 1; lia).
+    unfold js_in_rng. replace (55296 <=? c) with false by (symmetry; apply N.leb_gt; lia).
+    replace (56320 <=? c) with false by (symmetry; apply N.leb_gt; lia). cbn [andb].
+    unfold utf8_enc. replace (c <? 128) with true by (symmetry; apply N.ltb_lt; lia). reflexivity.
 Qed.
 
 Lemma js_chars_encode s : forall f r acc, (length s < f)%nat ->
@@ -335,16 +360,48 @@ Proof.
   - rewrite app_length. simpl. pose proof (encode_string_length s). lia.
 Qed.
 
+Lemma hexdigit_decode_char : forall v, v < 16 -> jm_hex_decode_char (jm_hexdigit v) = v /\ jm_is_hex_digit (jm_hexdigit v) = true.
+Proof.
+  intros v Hv.
+  assert (E : forallb (fun v => if v <? 16 then (jm_hex_decode_char (jm_hexdigit v) =? v) && jm_is_hex_digit (jm_hexdigit v) else true) all_bytes = true)
+    by (vm_compute; reflexivity).
+  pose proof (byte_sweep _ E v ltac:(lia)) as Hs. cbv beta in Hs. apply N.ltb_lt in Hv. rewrite Hv in Hs.
+  apply andb_true_iff in Hs. destruct Hs as [H1 H2]. apply N.eqb_eq in H1. split; assumption.
+Qed.
+
 (* qpdf's own lexer (JSONParser::getToken, string states) inverts encode_string *)
 Lemma jm_parse_string_step c f r acc :
   jm_parse_string (S f) (jm_encode_char c ++ r) acc = jm_parse_string f r (c :: acc).
 Proof.
   destruct (jm_plain_char c) eqn:P.
   - unfold jm_encode_char. rewrite P. apply plain_char_spec in P.
-    simpl. destruct (N.ltb_spec c 32); [lia|]. destruct (N.eqb_spec c 34); [lia|].
-    destruct (N.eqb_spec c 92); [lia|]. reflexivity.
-  - pose proof (not_plain_cases c P) as Hin.
-    repeat (destruct Hin as [<-|Hin]; [reflexivity|]). destruct Hin.
+    assert (E1 : (c =? 34) = false) by (apply N.eqb_neq; lia).
+    assert (E2 : (c <? 32) = false) by (apply N.ltb_ge; lia).
+    assert (E3 : (c =? 92) = false) by (apply N.eqb_neq; lia).
+    cbn [app jm_parse_string]. rewrite E1, E2, E3. reflexivity.
+  - unfold jm_encode_char. rewrite P.
+    destruct (N.eqb_spec c 92) as [->|H92]; [reflexivity|]. destruct (N.eqb_spec c 34) as [->|H34]; [reflexivity|].
+    destruct (N.eqb_spec c 8) as [->|]; [reflexivity|]. destruct (N.eqb_spec c 12) as [->|]; [reflexivity|].
+    destruct (N.eqb_spec c 10) as [->|]; [reflexivity|]. destruct (N.eqb_spec c 13) as [->|]; [reflexivity|].
+    destruct (N.eqb_spec c 9) as [->|]; [reflexivity|].
+    pose proof (not_plain_lt c P H34 H92) as Hc.
+    assert (Hm : c mod 16 < 16) by (apply N.mod_lt; discriminate).
+    destruct (hexdigit_decode_char _ Hm) as [D2 I2].
+    cbn [app jm_parse_string]. change (92 <? 32) with false. change (92 =? 34) with false. change (92 =? 92) with true. cbv iota.
+    change ((117 =? 92) || (117 =? 34) || (117 =? 47)) with false. change (117 =? 98) with false. change (117 =? 102) with false.
+    change (117 =? 110) with false. change (117 =? 114) with false. change (117 =? 116) with false. change (117 =? 117) with true. cbv iota.
+    change (jm_is_hex_digit 48) with true. change (jm_hex_decode_char 48) with 0.
+    assert (Hd : jm_is_hex_digit (if c <? 16 then 48 else 49) = true /\ jm_hex_decode_char (if c <? 16 then 48 else 49) = (if c <? 16 then 0 else 1))
+      by (destruct (c <? 16); split; reflexivity).
+    destruct Hd as [Hd1 Hd2]. rewrite Hd1, Hd2, I2, D2. cbn [andb].
+    replace (((0 * 16 + 0) * 16 + (if c <? 16 then 0 else 1)) * 16 + c mod 16) with c by (rewrite <- (ctl_value c Hc) at 1; lia).
+    assert (L1 : (N.land c 64512 =? 55296) = false /\ (N.land c 64512 =? 56320) = false).
+    { assert (E : forallb (fun c => if c <? 32 then negb (N.land c 64512 =? 55296) && negb (N.land c 64512 =? 56320) else true) all_bytes = true)
+        by (vm_compute; reflexivity).
+      pose proof (byte_sweep _ E c ltac:(lia)) as Hs. cbv beta in Hs. replace (c <? 32) with true in Hs by (symmetry; apply N.ltb_lt; lia).
+      apply andb_true_iff in Hs. destruct Hs as [A B]. apply negb_true_iff in A, B. split; assumption. }
+    destruct L1 as [L1 L2]. rewrite L1, L2.
+    unfold jm_to_utf8. replace (c <? 128) with true by (symmetry; apply N.ltb_lt; lia). reflexivity.
 Qed.
 
 Lemma jm_parse_string_encode s : forall f r acc, (length s < f)%nat ->
